@@ -234,9 +234,15 @@ def vempty():
     return ('vzeros', ZERO)
 
 
+RANGES = {}   # loop index symbol -> (lo, hi): the half-open range it runs over
+SIZES = {}    # placeholder term -> size term
+
+
 def size(v):
     if isinstance(v, tuple):
         k = v[0]
+        if v in SIZES:
+            return SIZES[v]
         if k == 'vzeros':
             return v[1]
         if k == 'vfill':
@@ -289,6 +295,8 @@ def sel(v, i):
             val = subst(body, {kk: i})
             if lo == ZERO and hi == size(v0):
                 return val
+            if RANGES.get(i) == (lo, hi):
+                return val
             return ite(land(cmp('<=', lo, i), cmp('<', i, hi)), val, sel(v0, i))
         if k == 'vpush':
             if i == size(v[1]):
@@ -315,7 +323,7 @@ def subterms(t):
     while stack:
         x = stack.pop()
         yield x
-        if isinstance(x, tuple):
+        if isinstance(x, tuple) and x and x[0] not in ('lv', 'ref'):
             for c in x[1:]:
                 if isinstance(c, tuple):
                     stack.append(c)
@@ -346,7 +354,7 @@ def subst(t, mapping):
     cache = {}
 
     def go(x):
-        if not isinstance(x, tuple):
+        if not isinstance(x, tuple) or not x:
             return x
         if x in mapping:
             return mapping[x]
@@ -354,9 +362,13 @@ def subst(t, mapping):
         if r is not None:
             return r
         k = x[0]
-        if k in ('num', 'sym', 'bool', 'str', 'chr', 'enum'):
+        if k in ('num', 'sym', 'bool', 'str', 'chr', 'enum', 'lv', 'ref'):
             cache[x] = x
             return x
+        if not isinstance(k, str):
+            r = tuple(go(c) for c in x)
+            cache[x] = r
+            return r
         if k == 'obj':
             r = ('obj', x[1], go(x[2]) if x[2] is not None else None,
                  tuple((n, go(v)) for n, v in x[3]))
